@@ -232,7 +232,7 @@ double SimpleDiscreteDistribution::pProb(double x) const
   double s = 0;
   for (map<double, double>::const_iterator it = distribution_.begin(); it != distribution_.end(); it++)
   {
-    if (it->first >= x)
+    if (it->first <= x)
       s += it->second;
     else
       break;
